@@ -10,14 +10,15 @@
    SyncChain, line by line:
      last := store.Last(); if last.Round < fromRound  -> return ErrNoBeaconStored
      if fromRound != 0 { store.Cursor: bb := Seek(fromRound); for bb != nil { send(bb); bb = Next() } }
+     sendMu.Lock()
      store.AddCallback(id, cb)      cb: closed -> ErrCallbackReplaced; under sendMu: drop b if b.Round <= lastSent,
-                                    else send the stored rounds lastSent+1..b.Round-1, then b; a failed send ->
-                                    RemoveCallback(id)
-     under sendMu: send the stored rounds lastSent+1..Last().Round  (what was stored since the scan)
+                                    else send(b) (fails -> RemoveCallback(id)), lastSent = b.Round
+     send the stored rounds lastSent+1..Last().Round (what was stored since the scan); sendMu.Unlock()
      wait for the error
-   (lastSent = fromRound-1, advanced by every send; = Last().Round when fromRound = 0.) Since the
-   mutex serializes the catch-up and the callback, and rounds <= lastSent are dropped, which of the
-   two sends a given round is not observable: a stream is one FIFO of beacons.
+   (lastSent = fromRound-1, advanced by every send; = Last().Round when fromRound = 0.) The mutex is
+   held from before AddCallback until the catch-up is over, so callback beacons come after it, and
+   rounds <= lastSent are dropped: which of the two sends a given round is not observable, a stream
+   is one FIFO of beacons.
    Events (the schedule is the quantified variable; the harness gates Send and AddCallback so that it
    chooses the schedule on the real code):
      SPut d        a beacon with content token d is appended to the store (round = next round) and
@@ -182,7 +183,7 @@ Definition ss_step (bk : backend) (st : sst) (e : sev) : sst :=
                           | None => streams st end in
               (* the catch-up after AddCallback: the beacons stored since the snapshot / last scan read
                  (rounds lastSent+1 .. Last().Round) are read from the store and sent first, under the
-                 mutex that also serializes the callback; beacons appended later queue up behind them *)
+                 mutex the callback needs; beacons appended later queue up behind them *)
               let rg := Some ((length (store st) - length (s_missed s))%nat, length (s_sent s)) in
               let s' := match s_missed s with
                         | [] => mkS (s_cid s) (s_from s) (PLive [] false) (s_sent s) (s_base s) (s_exp s) [] rg
